@@ -214,6 +214,17 @@ func run(spec Scenario) outcome {
 			sc.diedCheck(r, ctxLive())
 			sc.atRestChecks(&out, "warm", ctxLive(), r)
 		}
+		if spec.DwellMs > 0 {
+			// idle dwell: the lane (fresh, or drained after the warm-up) is left alone
+			time.Sleep(time.Duration(spec.DwellMs) * time.Millisecond)
+			r := sc.waitRest(nil)
+			out.snapshots += r.snapshots
+			if !r.ok {
+				return ptr(bail("watchdog after the idle dwell: " + describe(append(r.lane, r.har...))))
+			}
+			sc.diedCheck(r, ctxLive())
+			sc.atRestChecks(&out, "idle-dwelt", ctxLive(), r)
+		}
 		// ---- phase 0: pin workers with gated tasks ------------------------------------------------
 		for i, lane := range spec.Pins {
 			t := pinTasks[i]
@@ -254,6 +265,17 @@ func run(spec Scenario) outcome {
 		out.restState = append(out.restState, "loaded:"+laneState(r))
 		sc.diedCheck(r, ctxLive())
 		sc.atRestChecks(&out, "loaded", ctxLive(), r)
+		if spec.DwellMs > 0 {
+			// loaded dwell: workers pinned, tasks queued and held - and nothing moves
+			time.Sleep(time.Duration(spec.DwellMs) * time.Millisecond)
+			r = sc.waitRest(nil)
+			out.snapshots += r.snapshots
+			if !r.ok {
+				return ptr(bail("watchdog after the loaded dwell: " + describe(append(r.lane, r.har...))))
+			}
+			sc.diedCheck(r, ctxLive())
+			sc.atRestChecks(&out, "loaded-dwelt", ctxLive(), r)
+		}
 
 		// ---- phase 2: external cancel in the loaded state ----------------------------------------------
 		if spec.Cancel.Kind == "external" {
@@ -364,8 +386,12 @@ func run(spec Scenario) outcome {
 	case len(r.lane) > 0:
 		sc.violate("C07", "goroutine-leak:"+stuckKey(r), "no lane goroutine is left after Wait returned", "still there: "+describe(r.lane))
 	}
+	// the lane has ended (Wait returned, none of its goroutines is left): it is at rest, so C14's
+	// statements about the pending count and LastPanic apply to this state as well
+	sc.endedChecks(&out)
 	// final judgements over the whole history
 	cr, wr := sc.cancelRet.Load(), sc.waitRet.Load()
+	wantRc := classify(sc.ctx.Err()) // Err() is stable once the context has ended
 	for _, t := range sc.tasks {
 		rc := t.rc.Load()
 		if t.spec.Kind == "nil" {
@@ -381,17 +407,16 @@ func run(spec Scenario) outcome {
 			sc.violate("C07", "push-never-returned", "PushTask returns", fmt.Sprintf("task %d", t.id))
 		}
 		if cr != 0 && t.pushCall.Load() > cr {
-			okRc := rc == rcCanceled || (spec.Cancel.Kind == "deadline" && rc == rcDeadline)
-			if !okRc {
-				sc.violate("C07", "push-after-cancel:"+rcName(rc), "a PushTask call that begins after the cancel returns the context's error", fmt.Sprintf("task %d: PushTask returned %s", t.id, rcName(rc)))
+			if rc != wantRc {
+				sc.violate("C07", "push-after-cancel:"+rcName(rc), "a PushTask call that begins after the cancel returns the context's error ("+rcName(wantRc)+")", fmt.Sprintf("task %d: PushTask returned %s", t.id, rcName(rc)))
 			}
 			if t.enters.Load() > 0 {
 				sc.violate("C07", "push-after-cancel-started", "a task pushed after the cancel is never started", fmt.Sprintf("task %d started", t.id))
 			}
 		}
 		if t.afterDone {
-			if okRc := rc == rcCanceled || (spec.Cancel.Kind == "deadline" && rc == rcDeadline); !okRc {
-				sc.violate("C07", "push-after-done:"+rcName(rc), "a PushTask call that begins after the context's Done() is closed returns the context's error", fmt.Sprintf("task %d, pushed by a goroutine woken by <-ctx.Done(): PushTask returned %s", t.id, rcName(rc)))
+			if rc != wantRc {
+				sc.violate("C07", "push-after-done:"+rcName(rc), "a PushTask call that begins after the context's Done() is closed returns the context's error ("+rcName(wantRc)+")", fmt.Sprintf("task %d, pushed by a goroutine woken by <-ctx.Done(): PushTask returned %s", t.id, rcName(rc)))
 			}
 			if t.enters.Load() > 0 {
 				sc.violate("C07", "push-after-cancel-started", "a task pushed after the cancel is never started", fmt.Sprintf("task %d started", t.id))
@@ -499,6 +524,44 @@ func (sc *scn) atRestChecks(out *outcome, phase string, live bool, r rest) {
 			}
 		}
 	}
+}
+
+// endedChecks (C14), after Wait returned: PendingTask still equals accepted - started (tasks dropped by
+// the cancellation stay counted: they were accepted and never started), and LastPanic is the value
+// of one of the panics that occurred - also of one that occurred after the cancellation.
+func (sc *scn) endedChecks(out *outcome) {
+	if sc.hasNil() {
+		return
+	}
+	accepted, started, _ := sc.counts()
+	s := sc.tl.Status()
+	maxPending := sc.spec.LaneSize * (sc.spec.QueueSize + 1)
+	if s.PendingTask < 0 || s.PendingTask > maxPending {
+		sc.violate("C14", "pending-bounds", fmt.Sprintf("0 <= PendingTask <= %d", maxPending), fmt.Sprint(s.PendingTask))
+	}
+	out.pendingCmp++
+	if s.PendingTask != accepted-started {
+		sc.violate("C14", "pending-exact:ended", fmt.Sprintf("at rest (lane ended) PendingTask == accepted - started = %d - %d = %d", accepted, started, accepted-started), fmt.Sprintf("Status().PendingTask = %d", s.PendingTask))
+	}
+	var raised []any
+	for _, t := range sc.tasks {
+		if (t.spec.Kind == "panic" || t.spec.Kind == "gatepanic") && t.enters.Load() > 0 {
+			raised = append(raised, t.panicVal)
+		}
+	}
+	lp := s.LastPanic
+	if len(raised) == 0 {
+		if lp != nil {
+			sc.violate("C14", "lastpanic-spurious:ended", "LastPanic is nil when no task panicked", fmt.Sprintf("%v", lp))
+		}
+		return
+	}
+	for _, v := range raised {
+		if equalPanic(lp, v) {
+			return
+		}
+	}
+	sc.violate("C14", "lastpanic-foreign:ended", "LastPanic is the value of one of the panics that occurred", fmt.Sprintf("LastPanic = %#v, raised %d values such as %#v", lp, len(raised), raised[0]))
 }
 
 // panicChecks (C14): LastPanic is one of the values raised (nil iff none).
